@@ -86,7 +86,6 @@ Proof.
   rewrite Hu2, Hl. reflexivity.
 Qed.
 
-Definition cp (c : N) : Prop := c < 1114112.
 
 Lemma nolo_simple e T : e <> 117 -> nolo_start (92 :: e :: T).
 Proof.
@@ -150,12 +149,6 @@ Proof.
 Qed.
 
 (* ---------- strings ---------- *)
-Fixpoint no_pair (s : list N) : bool :=
-  match s with
-  | c :: r => match r with c2 :: _ => negb (is_hi c && is_lo c2) | [] => true end && no_pair r
-  | [] => true
-  end.
-Definition str_ok (s : list N) : Prop := Forall cp s /\ no_pair s = true.
 
 Lemma lex_body s : forall acc T, str_ok s ->
   lex (Some acc) (flat_map esc_char s ++ 34 :: T) = otcons (TStr (rev acc ++ s)) (lex None T).
@@ -324,8 +317,6 @@ Proof.
 Qed.
 
 (* ---------- the two stored shapes ---------- *)
-Definition attrs_ok (a : list (list N * list (list N))) : Prop :=
-  Forall (fun kv => str_ok (fst kv) /\ Forall str_ok (snd kv)) a.
 
 Lemma obj_attrs_inv a : obj_attrs (attrs_obj a) = Some a.
 Proof.
@@ -342,7 +333,6 @@ Proof.
 Qed.
 
 (* scalar values: what "Unicode content" means *)
-Definition scalar (c : N) : bool := (c <? 55296) || ((57344 <=? c) && (c <? 1114112)).
 Lemma scalar_str_ok s : forallb scalar s = true -> str_ok s.
 Proof.
   induction s as [|c s IH]; intros H; [split; [constructor|reflexivity]|].
@@ -362,8 +352,6 @@ Proof.
   - apply Forall_forall. intros v Hv'. rewrite forallb_forall in Hv. apply scalar_str_ok. apply Hv. exact Hv'.
 Qed.
 
-Definition dialect_ok (d : dialect) : Prop :=
-  str_ok (d_fsep d) /\ str_ok (d_kvsep d) /\ str_ok (d_mvsep d) /\ str_ok (d_fmt d) /\ Forall str_ok (d_order d).
 
 Lemma ascii_ok s : forallb (fun c => c <? 128) s = true -> str_ok s.
 Proof. intros H. apply scalar_str_ok. apply forallb_forall. intros c Hc. rewrite forallb_forall in H. specialize (H c Hc). unfold scalar. lia. Qed.
